@@ -6,7 +6,8 @@ import YarlProofs.C16Idn
 
 Companion of `C16Headline.lean`: the headline theorems that need `C16More.lean` (+ `Lemmas/V6More.lean`) and
 `C16Idn.lean`, modules which import `C16Headline.lean` (C16More) or were written after it (C16Idn), so that the
-headline file itself cannot import them.  Nobody imports this file.
+headline file itself cannot import them.  Only C16HeadlineMore3.lean (the next companion: headline theorems over
+C16More2.lean) imports this file.
 
 Property statement (verbatim):
 
@@ -40,7 +41,9 @@ Reading guide (in addition to the one of `C16Headline.lean`).
   `l₁ <:+: l₂` = `l₁` is a contiguous piece of `l₂`.
 * `rebracket b h1` = `"[" ++ h1 ++ "]"` if `b` and `h1` has no '[' , else `h1`; `zonePart h0` = `"%" ++ zone` of `h0` or
   empty; `lowerAny e s` = `s.lower()` (an oracle call for a non-ASCII `s`); `C16_keptPort sc port` = `port` unless it is
-  the default port of `sc`; `checkNetloc` = `_check_netloc` (the NFKC screen).
+  the default port of `sc`; `checkNetloc` = `_check_netloc` (the NFKC screen: since library fix 27f84d3 it removes
+  `@ : # ? [ ]` from the netloc before normalising and rejects an NFKC form containing one of `/ ? # @ : [ ]` — two
+  characters more than the property text lists; C16Headline GAPS 8).
   37 = '%', 47 = '/', 58 = ':', 64 = '@', 91/93 = '[' ']'.
 -/
 set_option linter.unusedVariables false
@@ -483,16 +486,17 @@ theorem C16_headline_validation_fails_for_build_authority (e : Env) :
     rejected" — `build(authority=…)` (C16Headline GAPS 6; fix c2c2803) -/
 
 /-- the NFKC clause for `build(authority=A)` — SCREENED since fix c2c2803, exactly as `C16_headline_nfkc_rejects` states
-    for the constructor: a non-ASCII `A` whose NFKC form (`nn`, the oracle's answer for `A` without "@:#?") contains one
-    of "/?#@:" never yields a URL; and the error is `ValueError` as soon as the steps in front of the screen pass (a
+    for the constructor: a non-ASCII `A` whose NFKC form (`nn`, the oracle's answer for `A` without "@:#?[]") contains one
+    of "/?#@:[]" (the brackets since library fix 27f84d3: U+FF3B / U+FF3D normalise to them; the property text names the
+    first five only) never yields a URL; and the error is `ValueError` as soon as the steps in front of the screen pass (a
     `port` of the wrong type is a `TypeError`, a `query` argument may raise its own error, lowering a non-ASCII scheme
     is an oracle call). -/
 theorem C16_headline_nfkc_rejects_build_authority (e : Env) (a : BuildArgs) (nn : Str)
     (henc : a.encoded = false) :                          -- guard: encoded=True skips everything
     isAscii a.authority = false →
-    e.o.nfkc (a.authority.filter (fun c => c ≠ 64 ∧ c ≠ 58 ∧ c ≠ 35 ∧ c ≠ 63)) = some nn →
-    nn ≠ a.authority.filter (fun c => c ≠ 64 ∧ c ≠ 58 ∧ c ≠ 35 ∧ c ≠ 63) →
-    (∃ c ∈ nn, c = 47 ∨ c = 63 ∨ c = 35 ∨ c = 64 ∨ c = 58) →
+    e.o.nfkc (a.authority.filter (fun c => c ≠ 64 ∧ c ≠ 58 ∧ c ≠ 35 ∧ c ≠ 63 ∧ c ≠ 91 ∧ c ≠ 93)) = some nn →
+    nn ≠ a.authority.filter (fun c => c ≠ 64 ∧ c ≠ 58 ∧ c ≠ 35 ∧ c ≠ 63 ∧ c ≠ 91 ∧ c ≠ 93) →
+    (∃ c ∈ nn, c = 47 ∨ c = 63 ∨ c = 35 ∨ c = 64 ∨ c = 58 ∨ c = 91 ∨ c = 93) →
     (∀ u, build e a ≠ .ok u) ∧
     (a.portKind = 0 → (qargTruthy a.query = true → ∃ o, getStrQuery e.b a.query = .ok o) →
       (∃ sc, lowerAny e a.scheme = .ok sc) → build e a = .error .valueError) :=
